@@ -10,12 +10,14 @@ META = {
                   "source (listed files with tokens and flags); TLC checks for every option set and processing order that the designed machine yields "
                   "target = listed minus excluded with equal tokens, truthful counts (extracted + skipped = source), skips only for reasons an option names, "
                   "verify => equal, termination; and that the implementation machine (the code's deviations as named actions) violates them. TLC enumerates "
-                  "source classes (V1..V4 x attributes x empty file; plain, raw, encrypted, fix-key, multi-sector files) x rebuild options (target version, "
-                  "compression / sector-size override, skip filters, verify, list-only: full product in thorough, all single deviations plus selected pairs in "
-                  "quick); every case is run through the real rebuild_archive, then every listed source name is read from the target, the target is listed and "
+                  "source classes (V1..V4 x attributes x empty file x weak (signature) file x source sector size 512 B / 16 KiB; plain, raw, encrypted, "
+                  "fix-key compressed / raw, multi-sector files sized so that every class changes between single-unit and multi-sector layout; store-raw "
+                  "boundary files) x rebuild options (target version, compression / sector-size override 512 B / 4 KiB / 16 KiB, skip filters, verify, "
+                  "list-only: full product in thorough, all single deviations plus selected pairs in quick); every case is run through the real rebuild_archive, then every listed source name is read from the target, the target is listed and "
                   "compare_archives is called; TLC validates the recorded run against the specification's oracle (ExpectedOf / ExcludedOf).",
-    "level_note": "The model is small (hundreds of states): its weight is as the oracle of trace validation. File contents are compared as SHA-1 tokens. Sources are "
-                  "produced by ArchiveBuilder and must read back themselves (otherwise the case is C01's); (signature) files are present by name only.",
+    "level_note": "The model is small (hundreds of states): its weight is as the oracle of trace validation; its former-code machine (HET/BET enumeration, block-count summary) is refuted by TLC. "
+                  "File contents are compared as SHA-1 tokens. Sources are produced by ArchiveBuilder; a source that does not hold what was given to the builder is rejected "
+                  "with reason source-not-as-built (overlaps C01/C03). (signature) files are weak-signature files by name only.",
     "technique": "TLA+ state machine + exhaustive TLC check; TLC-enumerated source x option cases replayed on rebuild_archive / compare_archives; TLC trace validation",
     "design_ref": "DESIGN.md section 5, C07",
     "crates": ["c07"],
